@@ -3,6 +3,7 @@
 use vstd::prelude::*;
 verus! {
 //@include prelude/bytes.rs
+//@include prelude/conv.rs
 //@include prelude/bincode.rs
 //@include prelude/opaque_errors.rs
 //@include prelude/hmap_opaque.rs
